@@ -1,2 +1,6 @@
 import SpoxModel.Props.C08
 /-! `#print axioms` for every property theorem of C08; parsed by ./check. -/
+#print axioms C08.copyFirst_pure
+#print axioms C08.generated_copy_first
+#print axioms C08.normalise_pure
+#print axioms C08.no_copy_counterexample
